@@ -128,7 +128,18 @@ def check_system(c: Dict[str, Any], target: bytes, feat: Dict[str, Any]) -> List
     w = K.World(flags(), max_iters=4000, settle=5)
     req = (b'CONNECT ' if connect else b'GET ') + target + b' HTTP/1.1\r\nHost: whatever.test\r\n\r\n'
     client = K.Peer('client', out=req, script=[['send', len(req)]])
-    w.add_client(client)
+    prior = c.get('prior') if not c.get('damage') else None
+    if prior:
+        # an earlier connection of the same worker to the SAME host on ANOTHER port (still being served when the examined
+        # request arrives): where the examined request is dialled must not depend on it
+        h = ('[%s]' % c['host']) if c['hkind'] == 'v6' else c['host']
+        auth0 = h.encode('utf-8') + b':%d' % prior['port']
+        req0 = (b'CONNECT ' + auth0 if prior['form'] == 'authority' else b'GET http://' + auth0 + b'/prior') + b' HTTP/1.1\r\nHost: whatever.test\r\n\r\n'
+        client0 = K.Peer('client0', out=req0, script=[['send', len(req0)]])
+        w.add_client(client0)
+        w.at_quiescence = [lambda world: world.add_client(client) or world.order.insert(0, 'client')]
+    else:
+        w.add_client(client)
     origins: List[ReactiveOrigin] = []
 
     def fac(world: K.World, addr: Tuple[str, int], idx: int) -> Tuple[K.Peer, Optional[Dict[str, Any]]]:
@@ -136,7 +147,7 @@ def check_system(c: Dict[str, Any], target: bytes, feat: Dict[str, Any]) -> List
         origins.append(o)
         return o, None
     w.origin_factory = fac
-    w.order = ['client', 'origin0']
+    w.order = ['client', 'origin0'] if not prior else ['client0', 'origin0', 'origin1']
     w.run_local()
     out: List[Any] = []
     try:
@@ -154,6 +165,13 @@ def check_system(c: Dict[str, Any], target: bytes, feat: Dict[str, Any]) -> List
                 out.append(('damaged-target-neither-rejected-nor-closed', feat, {'target': target, 'client': got[:80]}, '4xx/5xx or close'))
             return out
         exp = expected(c)
+        if prior:
+            if not log or tuple(log[0].get('raw_addr') or ())[:2] != (exp['host'], prior['port']) and \
+                    (str((log[0].get('raw_addr') or ('',))[0]).lower(), (log[0].get('raw_addr') or (0, 0))[1]) != (exp['host'].lower(), prior['port']):
+                return [('prior-connection-not-dialled-as-named', feat, {'connects': [(x.get('via'), x.get('raw_addr')) for x in log]},
+                         (exp['host'], prior['port']))]
+            log = log[1:]
+            origins = origins[1:]
         if c.get('port') == 0 and not log:
             # port 0 is valid grammar but not connectable: refusing it (error response or close, no connect) is
             # "rejected rather than mis-routed"
@@ -191,7 +209,7 @@ def evaluate(c: Dict[str, Any]) -> Tuple[List[Any], Dict[str, Any]]:
     target = render_target(c)
     feat = {'form': c['form'], 'host': c['hkind'], 'port': 'absent' if c.get('port') is None else ('zero' if c['port'] == 0 else 'explicit'),
             'userinfo': bool(c.get('userinfo')), 'damage': c.get('damage'),
-            'empty_path_query': c['form'] == 'absolute' and c['path'] == '' and c.get('query') is not None}
+            'empty_path_query': c['form'] == 'absolute' and c['path'] == '' and c.get('query') is not None, 'prior': bool(c.get('prior'))}
     if c['hkind'] == 'name' and any(ord(ch) > 127 for ch in c['host']):
         feat['host'] = 'utf8-name'
     info = {'target': target}
@@ -232,6 +250,10 @@ def cases(draw: Any, damaged: bool) -> Dict[str, Any]:
     userinfo = draw(st.sampled_from([None, None, None, 'user:pass', 'user', 'u%40x:p%3Aq', ':']))
     c = {'form': form, 'hkind': hkind, 'host': host, 'port': port, 'path': path, 'query': query if form == 'absolute' else None,
          'userinfo': userinfo}
+    if not damaged and draw(st.integers(0, 2)) == 0:
+        eff = port if port is not None else (443 if form == 'authority' else 80)
+        c['prior'] = {'port': draw(st.sampled_from([p_ for p_ in (80, 443, 8080, 8443, 9000) if p_ != eff])),
+                      'form': draw(st.sampled_from(['absolute', 'authority']))}
     if damaged:
         c['damage'] = draw(st.sampled_from(['unbalanced-bracket', 'port-not-a-number', 'port-too-large', 'port-negative', 'empty-host',
                                             'two-at', 'stray-colon']))
@@ -253,6 +275,8 @@ def run_shard(spec: Dict[str, Any], seed: int, acc: Any) -> None:
         labs = ['form:' + c['form'], 'host:' + c['hkind'], 'port:' + ('absent' if c.get('port') is None else 'zero' if c['port'] == 0 else 'explicit')]
         if c.get('userinfo'):
             labs.append('userinfo')
+        if c.get('prior'):
+            labs.append('after-connection-to-same-host-other-port')
         if c.get('damage'):
             labs.append('damage:' + c['damage'])
         acc.case(c, nt, labels=labs, key=info['target'])
